@@ -45,6 +45,8 @@ def plan(ctx):
             items.append(('rand', engine.stable_hash((ctx.seed, 'c06r', i))))
         for i in range(ctx.n(40, 0)):
             items.append(('single', engine.stable_hash((ctx.seed, 'c06s', i))))
+        for i in range(ctx.n(24, 0)):
+            items.append(('long', engine.stable_hash((ctx.seed, 'c06l', i))))
     else:
         for (r, dd) in combos:
             for part in range(4):
@@ -55,6 +57,8 @@ def plan(ctx):
             items.append(('rand', engine.stable_hash((ctx.seed, 'c06r', i))))
         for i in range(ctx.n(0, 1500)):
             items.append(('single', engine.stable_hash((ctx.seed, 'c06s', i))))
+        for i in range(ctx.n(0, 600)):
+            items.append(('long', engine.stable_hash((ctx.seed, 'c06l', i))))
     return items
 
 
@@ -250,6 +254,8 @@ def run_item(item):
         return run_exh(item)
     if kind == 'rand':
         return run_rand(item)
+    if kind == 'long':
+        return run_long(item)
     return run_single(item)
 
 
@@ -485,6 +491,70 @@ def run_single(item):
                 continue
             counters['single_run_pairs'] += 1
     outs.append(held(sig=None, nontrivial=False, counters=counters, sets=sets))
+    return outs
+
+
+LONG_WORDS = {'cyrillic': ['строка', 'значение', 'проверка', 'файл', 'изменение'], 'cjk': ['変更', '確認', '行の', 'ファイル', '値'],
+              'emoji': ['😀😀', '🚀', '🎉🎉🎉', 'ok'], 'ascii': ['value', 'check', 'line', 'file', 'change'], 'greek': ['αλλαγή', 'γραμμή', 'τιμή']}
+
+
+def run_long(item):
+    """Pairs of very long lines (up to the default --max-line-length of 3000 columns; in bytes well beyond it for
+    non-ASCII text) that differ in one word: paired, and exactly that word emphasised."""
+    _, seed = item
+    rng = engine.item_rng(seed)
+    regex = r'\w+'
+    dist = rng.choice(['0.6', '1'])
+    subhunks, specs, scripts = [], [], []
+    for _ in range(3):
+        script = rng.choice(sorted(LONG_WORDS))
+        target = rng.choice([600, 1500, 2300, 2900])       # columns
+        words, w = [], 0
+        while True:
+            x = rng.choice(LONG_WORDS[script])
+            wx = sum(term.char_width(ch) for ch in x) + 1
+            if w + wx > target:
+                break
+            words.append(x)
+            w += wx
+        k = rng.randrange(1, len(words) - 1)
+        minus = ' '.join(words[:k] + ['OLDWORD'] + words[k:])
+        plus = ' '.join(words[:k] + ['NEWWORD'] + words[k:])
+        subhunks.append(([minus], [plus]))
+        specs.append(('OLDWORD', 'NEWWORD'))
+        scripts.append('%s:%d' % (script, target))
+    res = run_subhunks(subhunks, regex, dist)
+    c = crash_outcome(res, ID)
+    if c is not None:
+        return [c]
+    if res.rc != 0:
+        return [inconclusive('exit %d' % res.rc)]
+    groups = split_unified(res, subhunks)
+    sets = {'family': ['long-lines'], 'regex': [regex], 'distance': [dist], 'long_line_shapes': scripts}
+    if len(groups) != len(subhunks):
+        return [inconclusive('rows of the long-line sub-hunks could not be grouped', sets=sets)]
+    outs = []
+    counters = {'long_pairs': 0}
+    for grp, (ms, ps), (X, Y), sc in zip(groups, subhunks, specs, scripts):
+        if len(grp) != 3:
+            outs.append(inconclusive('a long line is not shown on one row (%s)' % sc, sets=sets))
+            continue
+        for info, text, run in ((grp[0], ms[0], X), (grp[1], ps[0], Y)):
+            cells, ok = strip_trailing_fill(cell_classes(info), text)
+            if not ok:
+                outs.append(inconclusive('text of a long line not recognised in its row (%s)' % sc, sets=sets))
+                break
+            if not paired(cells):
+                outs.append(violated('c06:long-lines:not-paired', 'two lines of %s bytes (%s columns) that differ in one word are not paired although their '
+                                     'distance is far below the threshold %s' % (len(text.encode()), sc, dist), 'paired', 'unpaired', run=res, sets=sets))
+                break
+            em = ''.join(ch for ch, cl in cells if cl == 'emph')
+            if em.strip() != run:
+                outs.append(violated('c06:long-lines:wrong-extent', 'the emphasised text of a long line is not the one differing word (%s)' % sc, run, em[:80], run=res, sets=sets))
+                break
+        else:
+            counters['long_pairs'] += 1
+    outs.append(held(sig=('long', tuple(scripts), dist), nontrivial=True, counters=counters, sets=sets))
     return outs
 
 
